@@ -229,6 +229,8 @@ def nintAbs (man : Nat) (exp : Int) : Nat × Dist :=
 
 /-- the tail of `nint_distance` shared by the mpf and mpc branches -/
 def nintDistCore (re : Mpf) (imDist : Dist) : Except Err (Int × Dist) :=
+  if re.man = 0 ∧ re ≠ fzero then .error .value   -- inf, -inf, nan in the real part (repaired: commit 8a0fe53)
+  else
   let mag := re.exp + re.bc
   if mag < 0 then .ok (0, Dist.pyMax (.fin mag) imDist)
   else if re.man ≠ 0 then
